@@ -40,6 +40,13 @@ def w_fpair_sets(job):
     K, name, meas = job['K'], job['filter'], job['meas']
     toks = ranked_tokens(pres, K)
     strs = [mask_str(toks, m) for m in range(1 << K)]
+    rstrs = strs
+    if job.get('respell'):
+        # the right string spells the same token set differently: reversed order, doubled blanks, first token repeated
+        def other(m):
+            ts_ = [toks[i] for i in range(K) if m >> i & 1]
+            return '  '.join(reversed(ts_)) + (' ' + ts_[0] if ts_ else '')
+        rstrs = [other(m) for m in range(1 << K)]
     pc = [m.bit_count() for m in range(1 << K)]
     tok = make_tokenizer(['ws', True])
     viol = []
@@ -55,7 +62,7 @@ def w_fpair_sets(job):
             for b in range(1, 1 << K):
                 o = (a & b).bit_count()
                 cls, _ = judge(pc[a], pc[b], o)
-                dropped = lib(f.filter_pair, sa, strs[b])
+                dropped = lib(f.filter_pair, sa, rstrs[b])
                 calls += 1
                 if cls == 'must':
                     nontrivial += 1
@@ -67,9 +74,9 @@ def w_fpair_sets(job):
                                 'key': '%s|pair|%s|%s|%r|K%d|%d|%d' % (prop, name, meas, t, K, a, b),
                                 'what': '%s: %sFilter(%s, %r).filter_pair(%r, %r) drops a pair with '
                                         'similarity %r (sizes %d,%d overlap %d)' % (
-                                            prop, name, meas, t, sa, strs[b],
+                                            prop, name, meas, t, sa, rstrs[b],
                                             sim_counts(meas, pc[a], pc[b], o), pc[a], pc[b], o),
-                                'detail': {'left': sa, 'right': strs[b]}})
+                                'detail': {'left': sa, 'right': rstrs[b]}})
                     else:
                         cnt['must-kept'] += 1
                 elif dropped:
